@@ -456,6 +456,9 @@ def describe(plan):
 MINIMISE_KW = {"protect": ("engine", "null", "alt", "kind", "fail_exc", "local1", "local2", "tree"),
                "list_keys": ("start",), "budget_s": 60.0, "max_tries": 60}
 
+# the first N runs are repeated in interpreters with another PYTHONHASHSEED
+CROSS_HASHSEED = 64
+
 EVIDENCE = {
     "rule": (
         "scenario = nested pair (17 pairs: by rate matrix F81/HKY85/TN93/GTR/GN, JC69/K80; by motif-probability "
